@@ -10,11 +10,16 @@ TA == [n \in TN |-> IF n = "n1" THEN {"a1", "a2"} ELSE {"b1", "b2"}]
 VARIABLES tid, l
 ASSUME TLCSet(2, [t \in 1..Len(Traces) |-> 0])
 ToSet(s) == {s[i] : i \in 1..Len(s)}
+\* o.skip: when the map is fed through a TorState, the mappings Tor has at connection time (one GETINFO answer) and
+\* the events that arrive while the controller is still bootstrapping cannot be observed one by one: the map is
+\* compared once they are all in ("all": nothing comparable at this step; "log": the map, not the listener calls)
 ObsOK(o) ==
-  /\ \A n \in Names : o.names[n] = byName'[n].addr
-  /\ \A a \in Addrs : o.addrs[a] = byAddr'[a]
-  /\ ToSet(o.log) = ToSet(log') /\ Len(o.log) = Len(log')
-  /\ ((Len(log') = 2 /\ log'[1][1] = "added") => o.log = log')   \* "added" precedes "expired" within one event
+  \/ o.skip = "all"
+  \/ /\ \A n \in Names : o.names[n] = byName'[n].addr
+     /\ \A a \in Addrs : o.addrs[a] = byAddr'[a]
+     /\ \/ o.skip = "log"
+        \/ /\ ToSet(o.log) = ToSet(log') /\ Len(o.log) = Len(log')
+           /\ ((Len(log') = 2 /\ log'[1][1] = "added") => o.log = log')   \* "added" precedes "expired" within one event
 PropsOK == FindIffLive' /\ FindsLatestAddr' /\ AddrKeys' /\ Counts'
 Step(e) ==
   CASE e.a = "Event"   -> Event(e.n, e.addr, IF e.k = Never THEN Never ELSE now + e.k)
